@@ -117,6 +117,87 @@ def extract_model(ob, m):
     return hook(ob, m)
 
 
+def _worker_loop(conn):
+    """Forked worker: receives task tuples, answers with _solve_one's result, until it is told to stop."""
+    while True:
+        try:
+            task = conn.recv()
+        except EOFError:
+            return
+        if task is None:
+            return
+        try:
+            conn.send(_solve_one(task))
+        except Exception as e:  # noqa: BLE001
+            conn.send((task[0], "error:" + str(e)[:200], 0.0, None, "z3"))
+
+
+def _hard_deadline_s(timeout_ms):
+    """Upper bound for one task if every solver call honoured its timeout: all configurations of the portfolio plus cvc5,
+    with a margin.  z3 does not always honour `timeout` (seen: minutes inside lp::dioph_eq): past this the worker is killed
+    and the VC counts as `unknown`."""
+    first = max(2000, timeout_ms // 4)
+    return (8 * first + timeout_ms) / 1000.0 + 15.0
+
+
+def _run_with_deadlines(todo, jobs):
+    ctx = mp.get_context("fork")
+    pending = list(reversed(todo))
+    results = []
+    workers = []          # [process, parent_conn, task or None, deadline]
+
+    def spawn():
+        pc, cc = ctx.Pipe()
+        pr = ctx.Process(target=_worker_loop, args=(cc,), daemon=True)
+        pr.start()
+        cc.close()
+        return [pr, pc, None, None]
+
+    for _ in range(jobs):
+        workers.append(spawn())
+    try:
+        while pending or any(w[2] is not None for w in workers):
+            progressed = False
+            for k, w in enumerate(workers):
+                pr, pc, task, deadline = w
+                if task is None and pending:
+                    t = pending.pop()
+                    pc.send(t)
+                    w[2], w[3] = t, time.time() + _hard_deadline_s(t[1])
+                    progressed = True
+                elif task is not None:
+                    if pc.poll(0):
+                        try:
+                            results.append(pc.recv())
+                        except EOFError:
+                            results.append((task[0], "unknown", 0.0, None, "worker-died"))
+                            pr.kill()
+                            workers[k] = spawn()
+                            progressed = True
+                            continue
+                        w[2] = w[3] = None
+                        progressed = True
+                    elif time.time() > deadline or not pr.is_alive():
+                        pr.kill()
+                        pr.join(1)
+                        results.append((task[0], "unknown", _hard_deadline_s(task[1]), None, "killed-at-hard-deadline"))
+                        workers[k] = spawn()
+                        progressed = True
+            if not progressed:
+                time.sleep(0.005)
+    finally:
+        for pr, pc, _, _ in workers:
+            try:
+                pc.send(None)
+            except Exception:  # noqa: BLE001
+                pass
+        for pr, pc, _, _ in workers:
+            pr.join(0.5)
+            if pr.is_alive():
+                pr.kill()
+    return results
+
+
 def solve_all(obligations, timeout_s=10, jobs=None, want_model=True):
     """Solve every obligation.  Sets .result in {unsat, sat, unknown}, .time, .model, .backend."""
     global _OBS
@@ -136,12 +217,7 @@ def solve_all(obligations, timeout_s=10, jobs=None, want_model=True):
             todo.append((i, ms, wm))
     if not todo:
         return
-    if jobs == 1 or len(todo) == 1:
-        results = [_solve_one(t) for t in todo]
-    else:
-        ctx = mp.get_context("fork")
-        with ctx.Pool(min(jobs, len(todo))) as pool:
-            results = pool.map(_solve_one, todo, chunksize=1)
+    results = _run_with_deadlines(todo, min(jobs, len(todo)))
     for idx, res, dt, model, backend in results:
         ob = obligations[idx]
         ob.result, ob.time, ob.model, ob.backend = res, dt, model, backend
